@@ -83,6 +83,19 @@ func c06pattern(rng *rand.Rand, host string) string {
 func TestVerifC06Matcher(t *testing.T) {
 	r := vh.Start("C06")
 	defer r.Finish()
+	{
+		irng := rand.New(rand.NewSource(r.Seed + 77))
+		var cs []string
+		for i := 0; i < r.N(300, 3000); i++ {
+			h := c06host(irng)
+			cs = append(cs, c06pattern(irng, h)+"|"+c06pattern(irng, h)+"|"+c06case(irng, h))
+		}
+		r.Independent("matcher", "NewNameMatcher / IsMember / IsSupersetOf", cs, func(c string) string {
+			f := strings.SplitN(c, "|", 3)
+			a, b := NewNameMatcher(f[0]), NewNameMatcher(f[1])
+			return fmt.Sprint(a.IsMember(f[2]), b.IsMember(f[2]), a.IsSupersetOf(b), b.IsSupersetOf(a), IsValidRule(f[0]))
+		})
+	}
 	rng := r.Rng
 	bs := func(x bool) string { return fmt.Sprint(x) }
 	for i := 0; i < r.N(4000, 80000); i++ {
